@@ -101,6 +101,54 @@ impl Fp {
     pub fn bytes(&self) -> [u8; 32] {
         to32(&self.v)
     }
+    /// square root for any odd prime (Tonelli-Shanks); None if not a residue
+    pub fn sqrt_any(&self) -> Option<Fp> {
+        use num_traits::Zero;
+        let one = BigUint::one();
+        if self.v.is_zero() {
+            return Some(self.clone());
+        }
+        let pm1 = self.p - &one;
+        if self.pow(&(&pm1 >> 1)).v != one {
+            return None;
+        }
+        let mut q = pm1.clone();
+        let mut s = 0u32;
+        while !q.bit(0) {
+            q >>= 1;
+            s += 1;
+        }
+        // a non-residue
+        let mut z = Fp { v: BigUint::from(2u32), p: self.p };
+        while z.pow(&(&pm1 >> 1)).v == one {
+            z = Fp { v: &z.v + &one, p: self.p };
+        }
+        let mut m = s;
+        let mut c = z.pow(&q);
+        let mut t = self.pow(&q);
+        let mut r = self.pow(&((&q + &one) >> 1));
+        while t.v != one {
+            let mut i = 0u32;
+            let mut t2 = t.clone();
+            while t2.v != one {
+                t2 = t2.sqr();
+                i += 1;
+            }
+            let mut b = c.clone();
+            for _ in 0..(m - i - 1) {
+                b = b.sqr();
+            }
+            m = i;
+            c = b.sqr();
+            t = t.mul(&c);
+            r = r.mul(&b);
+        }
+        if r.sqr() == *self {
+            Some(r)
+        } else {
+            None
+        }
+    }
     /// square root for p = 3 (mod 4); None if not a residue
     pub fn sqrt_3mod4(&self) -> Option<Fp> {
         let e = (self.p + BigUint::one()) >> 2;
